@@ -3,7 +3,7 @@
   Only statements of the property, non-vacuity examples and the audit live here; helper lemmas
   are in `ALV.Lemmas.C04*`.
 -/
-import ALV.Lemmas.C04Field
+import ALV.Lemmas.C04Index
 import ALV.Common.Audit
 
 set_option linter.unusedSectionVars false
@@ -92,6 +92,34 @@ theorem allzero_feedback (b as : List K) (a0 : K) (xs : List K) (hb : ∀ c ∈ 
     rw [List.replicate_succ] at this
     rw [this]
 
+/-! ### C04.1' the sentence of the property, literally -/
+
+/-- **C04.1'** (`filter_satisfies_property`): the outputs of the generated loop satisfy the
+sentence of the property — one output per input and, at every time `n`,
+`a0·y[n] = Σ_k b[k]·x[n−k] − Σ_{k≥1} a[k]·y[n−k]` with `x[−j] = zero`, `y[−k] = mem[k−1]`. -/
+theorem filter_satisfies_property (b as : List K) (a0 zero : K) (mem xs : List K)
+    (ha0 : a0 ≠ 0) (hmem : mem.length = as.length)
+    (hnz : ¬ ((∀ c ∈ b, c = 0) ∧ (∀ c ∈ as, c = 0))) :
+    DiffEq b a0 as zero mem xs (evalIR (compile b (a0 :: as) zero) mem zero xs) := by
+  rw [filter_eq_spec b as a0 zero mem xs hmem hnz]
+  exact fspec_diffeq b as a0 zero mem xs ha0 (by omega)
+
+/-- … and they are the only list that does: the property determines the output completely. -/
+theorem filter_unique_solution (b as : List K) (a0 zero : K) (mem xs ys : List K)
+    (ha0 : a0 ≠ 0) (hmem : mem.length = as.length)
+    (hnz : ¬ ((∀ c ∈ b, c = 0) ∧ (∀ c ∈ as, c = 0)))
+    (hys : DiffEq b a0 as zero mem xs ys) :
+    ys = evalIR (compile b (a0 :: as) zero) mem zero xs :=
+  diffeq_unique b as a0 zero mem xs _ _ ha0 hys
+    (filter_satisfies_property b as a0 zero mem xs ha0 hmem hnz)
+
+/-- with zero value 0 the all-zero filter needs no exception -/
+theorem filter_satisfies_property_zero (b as : List K) (a0 : K) (mem xs : List K)
+    (ha0 : a0 ≠ 0) (hmem : mem.length = as.length) :
+    DiffEq b a0 as 0 mem xs (evalIR (compile b (a0 :: as) 0) mem 0 xs) := by
+  rw [filter_eq_spec_zero b as a0 mem xs hmem]
+  exact fspec_diffeq b as a0 0 mem xs ha0 (by omega)
+
 /-! ### C04.4 non-causal filters refuse to run -/
 
 /-- **C04.4** (`noncausal`): any negative power in numerator or denominator ⇒ `ValueError`,
@@ -149,6 +177,29 @@ theorem generator_memory (zero : K) (lm n : Nat) (g : Nat → K) (h : lm ≤ n) 
 theorem memory_length (zero : K) (lm : Nat) (m : Mem K) : (memoryOf zero lm m).length = lm := by
   cases m <;> simp [memoryOf, memFromIter, List.length_take]
 
+/-! ### C04.6 the whole call -/
+
+/-- **C04.6** (`call_eq_spec`): a causal filter object with `a0 ≠ 0` that is not all-zero, called
+with any kind of memory: checks pass, the memory is normalised to `lm` items, the source is
+generated and run — the result is the difference equation on the dense coefficient lists. -/
+theorem call_eq_spec (num den : Terms K) (mem : Mem K) (zero : K) (xs : List K)
+    (hc : ∀ kv ∈ num ++ den, 0 ≤ kv.1) (h0 : coefAt den 0 ≠ 0)
+    (hnz : ¬ ((∀ c ∈ dense num, c = 0) ∧ (∀ c ∈ (dense den).tail, c = 0))) :
+    call num den mem zero xs
+      = .ok (fspec (dense num) (dense den).tail (coefAt den 0) zero
+              (memoryOf zero (dense den).tail.length mem) [] xs) := by
+  have hcausal : checkCausal num den = true := by
+    simp only [checkCausal, Bool.not_eq_true', List.any_eq_false]
+    intro kv hm
+    have := hc kv hm
+    simp; omega
+  have hd := dense_cons den h0
+  have hl : (dense den).length - 1 = (dense den).tail.length := by simp
+  simp only [call, hcausal, Bool.not_true, Bool.false_eq_true, if_false, h0, hl]
+  rw [hd]
+  simp only [List.tail_cons]
+  rw [filter_eq_spec _ _ _ _ _ _ (memory_length _ _ _) hnz]
+
 /-! ### non-vacuity -/
 
 /-- the `ZFilter` docstring: `ZFilter([1, 1], [1, -1])([1, 5, -4, -7, 9], memory=[3], zero=0)` -/
@@ -160,6 +211,12 @@ example : evalIR (compile [1, -1, 0, 3] [2, 1, -1, 0, 5] (0 : Rat)) [1, 2, 3, 4]
 example : evalIR (compile [0, 0] [3] (7 : Rat)) [] 7 [1, 2, 3] = [7, 7, 7] := by decide +kernel
 example : call [((-1 : Int), (1 : Rat)), (0, 2)] [(0, 3), (1, 1)] Mem.none 0 [1, 2]
     = .error .valueError := by decide +kernel
+/-- the hypotheses of C04.1 / C04.1' / C04.6 are satisfiable on a non-trivial filter -/
+example : DiffEq [1, -1, 0, 3] (2 : ℚ) [1, -1, 0, 5] 0 [1, 2, 3, 4] [2, 4, 6]
+    (evalIR (compile [1, -1, 0, 3] [2, 1, -1, 0, 5] (0 : ℚ)) [1, 2, 3, 4] 0 [2, 4, 6]) :=
+  filter_satisfies_property _ _ _ _ _ _ (by norm_num) rfl (by simp)
+example : call [((0 : Int), (1 : ℚ)), (1, 1)] [(0, 1), (1, -1)] (Mem.iter [3]) 0 [1, 5, -4, -7, 9]
+    = .ok [4, 10, 11, 0, 2] := by decide +kernel
 
 end ALV.Props.C04
 
